@@ -46,6 +46,7 @@ type iOp struct {
 	nh   uint64 // NextHopFaceId in the LP header (0 = absent)
 	hint string // forwarding hint delegation ("" = none)
 	hl   uint   // HopLimit carried by the Interest on arrival (0 = no HopLimit element)
+	lt   string // InterestLifetime element ("" = absent, else a duration; "0" = zero)
 	ifid uint64 // IncomingFaceId header the PEER put on the frame (0 = absent)
 }
 type dOp struct {
@@ -83,10 +84,13 @@ type sys struct {
 	t1     bool   // the driven thread has id 1 of 2 (names under /localhost belong to thread 0)
 	nameA  string // the ordinary name of the alphabet ("/a", or one that hashes to the driven thread)
 	fibmix bool   // the first step chooses the FIB entry that covers the probe name (see universes)
-	cfg    fwsim.Config
-	names  []string
-	defs   map[string]opDef
-	allOps []explore.Op
+	// deferred: every non-local face is backlogged - it keeps what it was handed until the next clock
+	// step and serialises it then; C09.out is evaluated on what it reads at that time (wire.go)
+	deferred bool
+	cfg      fwsim.Config
+	names    []string
+	defs     map[string]opDef
+	allOps   []explore.Op
 }
 
 type inst struct {
@@ -96,8 +100,9 @@ type inst struct {
 	nonceCtr uint32
 	dump     table.VerifPitCsDump
 	started  bool
-	fib      string // fibmix: the chosen universe and the route changes since (for reports)
-	uprefix  string // fibmix: the prefix of the FIB entry that covers the probe name and lists the producer L5
+	fib      string   // fibmix: the chosen universe and the route changes since (for reports)
+	uprefix  string   // fibmix: the prefix of the FIB entry that covers the probe name and lists the producer L5
+	queue    []queued // defer configurations: what the backlogged non-local faces still hold
 }
 
 func (s *sys) add(n string, d opDef) {
@@ -123,6 +128,9 @@ func (s *sys) addI(o iOp) {
 	if o.hl != 0 {
 		sh += fmt.Sprintf("+hl=%d", o.hl)
 	}
+	if o.lt != "" {
+		sh += "+lt=" + o.lt
+	}
 	if o.ifid != 0 {
 		sh += "+ifid=" + faceLabel[o.ifid]
 	}
@@ -146,7 +154,7 @@ func build(cfgName string) explore.System {
 		report.Fatal("bad config name %q", cfgName)
 	}
 	s := &sys{defs: map[string]opDef{}, nameA: "/a"}
-	link, tiny := false, false
+	link, tiny, cstiny := false, false, false
 	for _, x := range strings.Fields(cfgName)[4:] {
 		switch x {
 		case "link":
@@ -155,6 +163,10 @@ func build(cfgName string) explore.System {
 			s.fibmix, tiny = true, true
 		case "tiny":
 			tiny = true // a handful of interacting ops, for the deep search without de-duplication
+		case "cstiny":
+			tiny, cstiny = true, true // the same, around the content store (hits on several faces in a row)
+		case "defer":
+			s.deferred = true
 		case "t1":
 			s.t1 = true
 			s.nameA = fwsim.New(fwsim.Config{ThreadID: 1}).NameForThread("a")
@@ -165,6 +177,9 @@ func build(cfgName string) explore.System {
 	A := s.nameA
 	s.cfg = fwsim.Config{
 		RealLinkService: link,
+		// a producer region: a forwarding hint inside it is "reached" (the FIB lookup falls back to the
+		// Interest name), one outside it replaces the name in the FIB lookup
+		Regions: []string{"/r"},
 		Faces: []fwsim.FaceSpec{
 			{ID: fwsim.L1, Label: "L1", Scope: defn.Local, Link: defn.PointToPoint, CCF: true},
 			{ID: fwsim.N2, Label: "N2", Scope: defn.NonLocal, Link: defn.PointToPoint},
@@ -253,6 +268,21 @@ func build(cfgName string) explore.System {
 	s.addI(iOp{face: fwsim.L1, name: "/localhost/x", hint: "/a"})
 	s.addI(iOp{face: fwsim.L1, name: "/localhost/x", hint: "/a", nh: fwsim.N2})
 	s.addI(iOp{face: fwsim.L1, name: A, hint: "/localhost/h"})
+	// ... on Interests under /localhost that arrive on NON-LOCAL faces: a hint that has a FIB route
+	// (the ordinary name), one inside the producer region (lookup falls back to the name), one under
+	// /localhost; without local fields (N2) and with (N4, NextHopFaceId naming the local producer).
+	// The complete product of optional Interest fields is swept in l3sweep.go.
+	s.addI(iOp{face: fwsim.N2, name: "/localhost/x", hint: A})
+	s.addI(iOp{face: fwsim.N2, name: probeName, hint: "/r/s"})
+	s.addI(iOp{face: fwsim.N4, name: probeName, hint: A, nh: fwsim.L5})
+	if os.Getenv("VERIF_TIER") == "thorough" {
+		s.addI(iOp{face: fwsim.N2, name: "/localhost/x", hint: "/localhost/h"})
+		s.addI(iOp{face: fwsim.L1, name: probeName, hint: "/r/s"})
+		// InterestLifetime elements (0, short) on /localhost Interests
+		s.addI(iOp{face: fwsim.N2, name: "/localhost/x", lt: "0"})
+		s.addI(iOp{face: fwsim.N2, name: probeName, cbp: true, lt: "10ms"})
+		s.addI(iOp{face: fwsim.L1, name: probeName, lt: "10ms"})
+	}
 	// Interests that CARRY a HopLimit (1: exhausted by the decrement, 2, 255), under /localhost and
 	// under /localhop, from the local application and from a non-local face
 	s.addI(iOp{face: fwsim.L1, name: "/localhost/x", hl: 2})
@@ -283,6 +313,11 @@ func build(cfgName string) explore.System {
 	}
 	if tiny {
 		keep := []string{"I(L1," + probeName + ",plain+hl=2)", "I(N2," + A + ",plain)", "I(N2,/,cbp)", "D(L5," + probeName + ",none)", "D(L5,/localhost/x,echo0)", "D(N2,/localhost/x,echo0)", "T(100ms)"}
+		if cstiny {
+			// Data of an ordinary name and of two names under /localhost get cached (unsolicited Data is
+			// admitted), then consumers on non-local and local faces hit the cache in every order
+			keep = []string{"D(N2," + A + ",none)", "D(L5,/localhost/x,none)", "D(L5," + probeName + ",none)", "I(N2," + A + ",plain)", "I(L1,/localhost/x,plain)", "I(L1," + probeName + ",plain)", "I(N2,/,cbp)", "I(L1," + A + ",plain)", "T(100ms)"}
+		}
 		if s.fibmix {
 			for _, n := range s.names {
 				if d := s.defs[n]; d.u != nil || d.f != nil {
@@ -367,10 +402,18 @@ func (in *inst) noteTokens(sends []fwsim.Send) {
 // checkOut is C09.out: the invariant on every transmission.
 func checkOut(sends []fwsim.Send, how string) (v []report.Violation) {
 	for _, sd := range sends {
-		if nonLocal(sd.Face) && fwsim.IsLocalhost(sd.Name) {
+		if !nonLocal(sd.Face) {
+			continue
+		}
+		if fwsim.IsLocalhost(sd.Name) {
 			v = append(v, report.Violation{Clause: "C09.out",
 				Key:    fmt.Sprintf("%s under /localhost transmitted on a non-local face (%s)", sd.Kind, how),
 				Detail: fmt.Sprintf("%s %s was handed to non-local face %s", sd.Kind, sd.NameStr, faceLabel[sd.Face])})
+		} else if is, what := sendLocalhost(sd); is {
+			// the decoded packet is not under /localhost, the bytes the face will send are
+			v = append(v, report.Violation{Clause: "C09.out",
+				Key:    fmt.Sprintf("bytes of a packet under /localhost handed to a non-local face as %s not under /localhost (%s)", sd.Kind, how),
+				Detail: fmt.Sprintf("non-local face %s was handed %s %s, but Pkt.Raw holds the %s", faceLabel[sd.Face], sd.Kind, sd.NameStr, what)})
 		}
 	}
 	return
@@ -382,6 +425,8 @@ func (s *sys) step(in *inst, op explore.Op) (v []report.Violation) {
 		report.Fatal("unknown op %q", op.Name)
 	}
 	in.started = true
+	var sends []fwsim.Send
+	how := ""
 	switch {
 	case d.u != nil:
 		for _, rt := range d.u.routes {
@@ -405,6 +450,13 @@ func (s *sys) step(in *inst, op explore.Op) (v []report.Violation) {
 		if o.hl != 0 {
 			is.HopLimit = fwsim.Uint(o.hl)
 		}
+		if o.lt != "" {
+			lt, err := time.ParseDuration(o.lt)
+			if o.lt != "0" && err != nil {
+				report.Fatal("bad lifetime %q", o.lt)
+			}
+			is.Lifetime = fwsim.Dur(lt)
+		}
 		var lp fwsim.LP
 		if o.nh != 0 {
 			lp.NextHopFaceID = fwsim.U64(o.nh)
@@ -417,9 +469,9 @@ func (s *sys) step(in *inst, op explore.Op) (v []report.Violation) {
 		if rejected {
 			before = in.whiteBox()
 		}
-		sends := in.sim.Interest(o.face, is, lp)
+		sends = in.sim.Interest(o.face, is, lp)
 		in.noteTokens(sends)
-		how := "forwarded to a FIB next hop"
+		how = "forwarded to a FIB next hop"
 		if o.nh != 0 && in.sim.Faces[o.face].Spec().CCF {
 			how = "sent to the face chosen by NextHopFaceId"
 		}
@@ -449,9 +501,9 @@ func (s *sys) step(in *inst, op explore.Op) (v []report.Violation) {
 		if rejected {
 			before = in.whiteBox()
 		}
-		sends := in.sim.Data(o.face, fwsim.DataSpec{Name: o.name, Content: "x", Freshness: fwsim.Dur(time.Second)}, lp)
+		sends = in.sim.Data(o.face, fwsim.DataSpec{Name: o.name, Content: "x", Freshness: fwsim.Dur(time.Second)}, lp)
 		in.noteTokens(sends)
-		how := "Data arrival, name match"
+		how = "Data arrival, name match"
 		if o.tok != "none" {
 			how = "Data arrival, token match"
 		}
@@ -461,9 +513,15 @@ func (s *sys) step(in *inst, op explore.Op) (v []report.Violation) {
 		}
 	case d.t != nil:
 		in.sim.Advance(d.t.dt)
-		v = append(v, checkOut(in.sim.Tick(), "periodic reaper")...)
+		sends, how = in.sim.Tick(), "periodic reaper"
+		v = append(v, checkOut(sends, how)...)
 	case d.down != 0:
 		in.sim.RemoveFace(d.down)
+		in.dropQueue(d.down)
+	}
+	v = append(v, s.afterStep(in, sends, op.Name, how)...)
+	if d.t != nil {
+		in.queue = in.queue[:0] // time passes: the backlogged faces drain (judged just above)
 	}
 	in.refresh()
 	return
@@ -537,6 +595,7 @@ func (s *sys) CheckState(i any) (v []report.Violation) {
 		}
 		sends := in.sim.Interest(fwsim.L1, ps, fwsim.LP{})
 		v = append(v, checkOut(sends, "forwarded to a FIB next hop")...)
+		v = append(v, s.afterStep(in, sends, "probe Interest "+probeName+" of L1 ("+round+")", "probe")...)
 		toL1, toL5 := 0, 0
 		for _, sd := range sends {
 			if sd.Kind == fwsim.KData && sd.Face == fwsim.L1 && sd.NameStr == probeName {
@@ -560,6 +619,7 @@ func (s *sys) CheckState(i any) (v []report.Violation) {
 		}
 		ds := in.sim.Data(fwsim.L5, fwsim.DataSpec{Name: probeName, Content: "x", Freshness: fwsim.Dur(time.Second)}, fwsim.LP{})
 		v = append(v, checkOut(ds, "Data arrival, name match")...)
+		v = append(v, s.afterStep(in, ds, "probe Data "+probeName+" of L5 ("+round+")", "probe")...)
 		got := 0
 		for _, sd := range ds {
 			if sd.Kind == fwsim.KData && sd.Face == fwsim.L1 && sd.NameStr == probeName {
@@ -587,6 +647,9 @@ func (s *sys) Canon(i any) string {
 	down := ""
 	if !in.sim.FaceRegistered(fwsim.N2) {
 		down = "down(N2)|"
+	}
+	if s.deferred {
+		down += in.canonQueue()
 	}
 	if s.fibmix {
 		if !in.started {
@@ -625,9 +688,11 @@ func configs(th bool) []explore.Config {
 		// cheaper configurations first: what they leave of their share goes to the deeper ones
 		add("br", "cs0", "tree fibmix", 3) // FIB universes (fibmix.go): universe + 2 steps
 		add("mc", "cs1", "ht fibmix", 3)
-		add("br", "cs1", "tree link", 4) // arrivals through the real NDNLPLinkService
+		add("br", "cs1", "tree link", 4)  // arrivals through the real NDNLPLinkService
 		add("mc", "cs1", "tree t1", 5)    // the driven thread is thread 1 of 2
 		add("br", "cs1", "ht link t1", 4) // both
+		add("br", "cs1", "tree defer", 3) // backlogged non-local faces (wire.go)
+		c = append(c, explore.Config{Name: "history search (no dedup) leaky mc cs1 ht cstiny defer", BuildName: "leaky mc cs1 ht cstiny defer", MaxDepth: devDepth(5), MaxDev: -1, NoDedup: true})
 		// audit of the canonical form, and a deep history search, both WITHOUT de-duplication
 		c = append(c, explore.Config{Name: "audit(no dedup) leaky br cs0 ht", BuildName: "leaky br cs0 ht", MaxDepth: devDepth(3), MaxDev: -1, NoDedup: true})
 		c = append(c, explore.Config{Name: "history search (no dedup) leaky br cs1 tree tiny", BuildName: "leaky br cs1 tree tiny", MaxDepth: devDepth(6), MaxDev: -1, NoDedup: true})
@@ -652,6 +717,10 @@ func configs(th bool) []explore.Config {
 		add("br", "cs1", fib+" link", 6)
 		add("mc", "cs1", fib+" t1", 6)
 		add("mc", "cs0", fib+" link t1", 6)
+		add("br", "cs1", fib+" defer", 6)
+		add("mc", "cs1", fib+" link defer", 5)
+		c = append(c, explore.Config{Name: "history search (no dedup) leaky br cs1 " + fib + " cstiny defer", BuildName: "leaky br cs1 " + fib + " cstiny defer", MaxDepth: 7, MaxDev: -1, NoDedup: true})
+		c = append(c, explore.Config{Name: "history search (no dedup) leaky mc cs1 " + fib + " cstiny defer", BuildName: "leaky mc cs1 " + fib + " cstiny defer", MaxDepth: 7, MaxDev: -1, NoDedup: true})
 	}
 	return c
 }
@@ -661,21 +730,23 @@ func main() {
 	explore.Main(explore.Spec{
 		Extra: func(rep *report.Reporter, cov report.Coverage) {
 			lpHeaderPass(rep, cov)
+			l3SweepPass(rep, cov)
 			scopePass(rep, cov)
 		},
-		ID:    "C09", PanicClause: "C09.panic", Build: build,
+		ID: "C09", PanicClause: "C09.panic", Build: build,
 		Configs: configs,
 		Budget: func(th bool) time.Duration {
 			if th {
 				return 25 * time.Minute
 			}
-			return 85 * time.Second
+			return 78 * time.Second
 		},
-		Rule: "BFS over histories of Interest arrivals (names /localhost/x, /localhost/nfd/y, /localhop/z, /a, / and /localhost with CanBePrefix; with and without a HopLimit element (1, 2, 255); from local L1 and non-local N2/N3/N4; NextHopFaceId -> N2 / L5 / L1 on the local-fields face L1, on N2 (local fields disabled) and on the NON-LOCAL face N4 with local fields enabled), Data arrivals (same names, from L5/N2/L1, no token or echo of a live upstream token) clock steps and the destruction of the non-local face N2 (after which packets it delivered earlier still arrive), on one real fw.Thread with leaky FIBs (default route and /localhost route to non-local N2, /localhost/nfd -> {L5,N2}), best-route or multicast on /, cache on/off, FIB tree/hash table; in the configurations that go through the real NDNLPLinkService also frames on which the PEER put an IncomingFaceId header (naming L5 / L1 / N2) on the non-local face N4 with all three local-fields options (consumer-controlled forwarding, incoming face indication, local cache policy) and on N2 without, Interests and Data; FIB universes (fibmix configurations): the first step installs the FIB entry that covers the probe name (/localhost/nfd below a /localhost -> N2 entry, or /localhost) with the local producer L5 at cost 1 and every subset of the non-local faces {N2,N3} at cost 0|1|2 in every insertion order (134 universes), non-local next hops are added/removed between packets; separately an exhaustive sweep of 24192 received frames (lpsweep.go: 8 option combinations of the receiving non-local face x 2 base states x 3 packets under /localhost x IncomingFaceId absent|L1|L5|N2|self|missing|0 x NextHopFaceId absent|L5|N2 x PitToken absent|live or well-formed|4 bytes x CachePolicy x CongestionMark x NonDiscovery) through the real link service, each on a fresh forwarder; C09.out checked on every SendPacket of every step and of the probes, C09.in by comparing the complete white-box dump before/after each rejected packet, C09.local by a fetch-twice probe in every explored state",
+		Rule: "BFS over histories of Interest arrivals (names /localhost/x, /localhost/nfd/y, /localhop/z, /a, / and /localhost with CanBePrefix; with and without a HopLimit element (1, 2, 255); from local L1 and non-local N2/N3/N4; NextHopFaceId -> N2 / L5 / L1 on the local-fields face L1, on N2 (local fields disabled) and on the NON-LOCAL face N4 with local fields enabled), Data arrivals (same names, from L5/N2/L1, no token or echo of a live upstream token) clock steps and the destruction of the non-local face N2 (after which packets it delivered earlier still arrive), on one real fw.Thread with leaky FIBs (default route and /localhost route to non-local N2, /localhost/nfd -> {L5,N2}), best-route or multicast on /, cache on/off, FIB tree/hash table; in the configurations that go through the real NDNLPLinkService also frames on which the PEER put an IncomingFaceId header (naming L5 / L1 / N2) on the non-local face N4 with all three local-fields options (consumer-controlled forwarding, incoming face indication, local cache policy) and on N2 without, Interests and Data; FIB universes (fibmix configurations): the first step installs the FIB entry that covers the probe name (/localhost/nfd below a /localhost -> N2 entry, or /localhost) with the local producer L5 at cost 1 and every subset of the non-local faces {N2,N3} at cost 0|1|2 in every insertion order (134 universes), non-local next hops are added/removed between packets; separately an exhaustive sweep of 24192 received frames (lpsweep.go: 8 option combinations of the receiving non-local face x 2 base states x 3 packets under /localhost x IncomingFaceId absent|L1|L5|N2|self|missing|0 x NextHopFaceId absent|L5|N2 x PitToken absent|live or well-formed|4 bytes x CachePolicy x CongestionMark x NonDiscovery) through the real link service, each on a fresh forwarder; separately an exhaustive sweep of the optional fields of the Interest itself (l3sweep.go, quick 46656 / thorough 414720 Interests under /localhost received on a non-local face: arrival face N2|N4 x copied|real link service x base state empty|same Interest pending from L1|matching Data cached x name/CanBePrefix/MustBeFresh x forwarding hint none|routed to a non-local face|routed to a local application|under /localhost|inside the producer region|unrouted|two delegations in both orders x NextHopFaceId x HopLimit x InterestLifetime x PitToken x Nonce), each on a fresh forwarder; forwarding hints (routed, inside the producer region /r) on /localhost Interests from non-local faces are also part of the BFS alphabet; C09.out checked on every SendPacket of every step and of the probes - on the decoded packet, on the bytes handed over, again through the OutPkt the face keeps once the pipeline call has returned, and in the 'defer' configurations (backlogged non-local faces that drain only at clock steps; full alphabet with de-duplication on tables + queued packets, and a content-store alphabet of 9 ops without de-duplication) after every later step and probe for as long as the packet is queued (wire.go), C09.in by comparing the complete white-box dump before/after each rejected packet, C09.local by a fetch-twice probe in every explored state",
 		Assumptions: []string{
 			"faces are simulated at the dispatch.Face seam (verif/harness/fwsim): Scope() of the fake face is what the thread consults; NextHopFaceId is copied into the packet only on faces with local fields enabled, as NDNLPLinkService.handleIncomingFrame does",
 			"L5 is a pure producer (never sends Interests), so it is never excluded as a next hop for holding an in-record",
-		"C09.local is claimed whenever L5 is a next hop of the longest-prefix FIB entry of the probe name, whatever else that entry lists and in whatever order and cost (fibmix universes); a packet's arrival face is the face whose link service received the frame, whatever header fields the frame carries (C09.in is evaluated against that face)",
+			"C09.local is claimed whenever L5 is a next hop of the longest-prefix FIB entry of the probe name, whatever else that entry lists and in whatever order and cost (fibmix universes); a packet's arrival face is the face whose link service received the frame, whatever header fields the frame carries (C09.in is evaluated against that face)",
+			"what a face transmits is what it reads through the dispatch.OutPkt it was handed (Pkt.Raw, decoded L3) at the moment it serialises; a backlogged face is modelled as draining at clock steps only, which within a history observes a superset of what any earlier drain would read (every queued packet is re-read after every step); the canonical state of the defer configurations adds the set of queued (face, kind, name, producing path)",
 			"every Interest carries a fresh nonce (loop/dead-nonce drops are C02's subject); equal canonical white-box dump (tokens renamed by entry, clock-relative) implies equal futures",
 			"states reached by a violating transition are not expanded (their futures would repeat the same leak)",
 		},
